@@ -305,7 +305,9 @@ static void op(int q) {
     OBS(s2.occ);
 #if !defined(KF_ONLY_D9) && QSEL(Q_DISCARD)
     /* data can only be moved when c > Chunk and c + occ <= maximum + Chunk */
+#if MAXMAX >= 1
     REACH(s0.c > 0 && s1.c == 0 && s0.occ + 1 >= (MAXMAX >= 3 ? 3 : MAXMAX), "discard moved data (two bytes or more where the buffer is large enough for that)");
+#endif
     REACH(s0.c > 0 && s1.c == s0.c, "discard left at most Chunk consumed bytes in place");
 #if MAXMAX >= 1
     REACH(s2.occ > s1.occ && s1.c == 0 && s0.c > 0, "refill after a discard that moved the window");
